@@ -162,7 +162,7 @@ class Evaluator:
             st.attrs[k] = v if isinstance(v, R) else const(v)
         saved = set(T.NONNULL)
         T.NONNULL.clear()
-        T.NONNULL.update(("param", p) for p in self.nonnull)
+        T.NONNULL.update((("param", p) if isinstance(p, str) else tuple(p)) for p in self.nonnull)
         try:
             val, st2 = self.call_function(fi, has_self, args or [], kwargs or {}, st, None, entry=True)
         finally:
